@@ -1,5 +1,9 @@
+#[cfg(not(feature = "gohla_pie_verif"))]
 use std::collections::hash_map::RandomState;
+#[cfg(not(feature = "gohla_pie_verif"))]
 use std::collections::HashSet;
+#[cfg(feature = "gohla_pie_verif")]
+use pie_graph::verif::{HashSet, SeededState as RandomState};
 use std::error::Error;
 use std::hash::BuildHasher;
 
